@@ -243,6 +243,43 @@ func (p c02) Run(w *mon.Worker, idx int) mon.Result {
 		if doc.K != ref.Map {
 			doc = ref.MapV(ref.KV{K: "a", V: doc})
 		}
+		if idx%3 == 1 {
+			// a non-empty container is replaced by a scalar; what is written below it afterwards starts from nothing
+			wdoc := ref.MapV(ref.KV{K: "cfg", V: ref.MapV(ref.KV{K: "old", V: ref.IntV(1)}, ref.KV{K: "keep", V: ref.SeqV(ref.IntV(1), ref.IntV(2))})},
+				ref.KV{K: "list", V: ref.SeqV(ref.StrV("a"), ref.StrV("b"), ref.StrV("c"))}, ref.KV{K: "rest", V: doc})
+			sv := []string{"null", "null", "5", "\"s\"", "~"}[r.IntN(5)]
+			type form struct {
+				expr string
+				path []any
+				v    *ref.V
+			}
+			f := []form{
+				{fmt.Sprintf(`.cfg = %s | .cfg.name = "n"`, sv), []any{"cfg"}, ref.MapV(ref.KV{K: "name", V: ref.StrV("n")})},
+				{fmt.Sprintf(`.list = %s | .list[1] = "z"`, sv), []any{"list"}, ref.SeqV(ref.NullV(), ref.StrV("z"))},
+				{fmt.Sprintf(`.cfg = %s | .cfg.a.b = 1`, sv), []any{"cfg"}, ref.MapV(ref.KV{K: "a", V: ref.MapV(ref.KV{K: "b", V: ref.IntV(1)})})},
+				{fmt.Sprintf(`.cfg |= %s | .cfg[0] = "first"`, sv), []any{"cfg"}, ref.SeqV(ref.StrV("first"))},
+			}[r.IntN(4)]
+			if sv != "null" && sv != "~" {
+				// (a scalar that is not null cannot be written below: yq reports that; nothing to compare)
+				f.expr = strings.Replace(f.expr, " = "+sv+" |", " = null |", 1)
+				f.expr = strings.Replace(f.expr, " |= "+sv+" |", " |= null |", 1)
+			}
+			cs["expr"], cs["doc"] = f.expr, wdoc.JSON()
+			want := wdoc.Copy()
+			_ = ref.SetPath(want, f.path, f.v)
+			got, _, yerr := evalDoc(f.expr, wdoc)
+			res.Evals++
+			res.Nontrivial = true
+			res.Tags = append(res.Tags, "container_reset_then_written")
+			res.Sig = fmt.Sprintf("resetwrite|%s|%x", f.expr, doc.ShapeHash())
+			if yerr != nil {
+				return fail("`%s` failed: %v", f.expr, yerr)
+			}
+			if got == nil || !ref.EqualNum(got, want) {
+				return fail("`%s`\n expected %s\n observed %s", f.expr, want, got)
+			}
+			return hold("written below a reset container")
+		}
 		if idx%3 == 0 {
 			// several keys in one bracket, some there and some not: every listed key holds the value afterwards
 			m := ref.MapV(ref.KV{K: "ka", V: ref.IntV(1)}, ref.KV{K: "kc", V: ref.SeqV(ref.IntV(3))})
